@@ -168,14 +168,16 @@ def process_renames_and_deletes(plain, renames, deletes, old):
             cmds.append(("R", op, np))
         if changed_content(o, e) or o[5] != e[5]:
             modifies.append(c)
-        if o[3] == "d" and e[3] == "d":
-            # tree_old.iter_entries_by_dir(specific_files=[op]) yields just (op, <the directory itself>):
-            # the loop body runs once with p = op (skipped in plain mode: it is a directory)
-            if not plain:
-                k = op + b"/" + op
-                must = [(a, b) for a, b in must if a != k] + [(k, np + b"/" + op)]
+        if o[3] == "d" and e[3] == "d" and plain:
+            # plain streams: the files and symlinks below the directory (tree_old.walkdirs) are renamed
+            # one by one; in a rich stream the directory's own rename carries them
+            for rel, x in descendants(old, o[0]):
+                if x[3] == "d":
+                    continue
+                k = op + b"/" + rel
+                must = [(a, b) for a, b in must if a != k] + [(k, np + b"/" + rel)]
     for a, b in sorted(must):
-        if a not in old_to_new:
+        if a not in old_to_new and a not in deleted_paths:
             cmds.append(("R", a, b))
     for c in deletes:
         if c[1] not in deleted_paths:
@@ -208,10 +210,12 @@ def order_by(paths, mods):
     return out + rest
 
 
-def filecmds(plain, old, new, mpaths=()):
+def filecmds(plain, old, new, mpaths=(), dpaths=()):
     """(ordered rename/delete commands, M commands) of _get_filecommands."""
     added, removed, renamed, kindch, modified = changes_from(old, new)
     cmds, rd_mod = process_renames_and_deletes(plain, renamed, removed, old)
+    # a file or symlink that becomes a directory is deleted first (in iter_changes order, see order_by)
+    cmds = order_by(list(dpaths), sorted(("D", c[1]) for c in kindch if c[4][3] == "d")) + cmds
     mods = []
     for c in added + modified + kindch + rd_mod:
         mods.extend(modify_cmd(plain, c[4], c[2]))
@@ -341,6 +345,7 @@ def ensure_directory(st, path, fuel=64):
     st.dirents = aset(st.dirents, dname, ie)
     if find_entry(st.basis, di) is not None:
         record_delete(st, dname, ie)
+        st.dirents = aset(st.dirents, dname, ie)       # re-seated (fix 62f284f)
     add_entry(st, (None, dname, di, ie))
     return base, di
 
